@@ -135,7 +135,7 @@ fn reset_history(rng: &mut Rng, out: &mut CaseOut) {
                 break (k, r);
             }
         };
-        let size = if k.max(r) > 4096 { 2 } else { *rng.pick(&[2usize, 30, 64, 66]) };
+        let size = if k.max(r) > 4096 { 2 } else { *rng.pick(&[2usize, 30, 64, 66, 100]) };
         let high = gen::rule_high(k, r);
         if last_high.is_some() && last_high != Some(high) {
             switches += 1;
